@@ -209,7 +209,7 @@ theorem respects_xattr (sel : Bytes → Bool) (set : Option (Bytes × Bytes)) (r
 
 theorem respects_strip (o : StripOpts) : Respects (stripF o) := by
   intro h e
-  by_cases hc : (h.getD 3 0 != 0 && e.kind == 0) = true
+  by_cases hc : (h.getD 3 0 != 0 && (e.kind == 0 || e.kind == 2)) = true
   · simp only [standalone, hc, if_true, stripF, Option.map_some]
   · simp only [standalone, hc, stripF, Option.map_some]; rfl
 
